@@ -122,7 +122,13 @@ def main():
         dirs = [d for d in dirs if any(a in d for a in sys.argv[1:])]
     with ThreadPoolExecutor(max_workers=5) as ex:
         results = list(ex.map(verify, dirs))
-    json.dump(results, open("/tmp/seedwt/results.json", "w"), indent=1)
+    merged = {}
+    if os.path.exists("/tmp/seedwt/results.json"):
+        for r0 in json.load(open("/tmp/seedwt/results.json")):
+            merged[r0["id"]] = r0
+    for r1 in results:
+        merged[r1["id"]] = r1
+    json.dump([merged[k] for k in sorted(merged)], open("/tmp/seedwt/results.json", "w"), indent=1)
     for r in results:
         print(r["id"], "apply=%s" % r.get("apply"), "suite=%s" % r.get("suite_passes_with_change"), "demo_fails=%s" % r.get("demo_fails_with_change"),
               "demo_passes_clean=%s" % r.get("demo_passes_without_change"), "detected_by=%s" % sorted(r.get("detected_by", {}).keys()), r.get("error", ""))
